@@ -168,6 +168,11 @@ def explore(
                 if efilter.ignore:
                     status = None
                     out.ignored_paths += 1
+                elif efilter.user_exc is not None and isinstance(efilter.user_exc[0], RecursionError) and "site-packages/crosshair/" in "".join(efilter.user_exc[1].format()[-6:]):
+                    # the executor's own recursion (deep symbolic string/sequence structures), not the code under analysis
+                    status = VerificationStatus.UNKNOWN
+                    out.unknown_paths += 1
+                    out.unknown_reasons["ExecutorRecursion"] = out.unknown_reasons.get("ExecutorRecursion", 0) + 1
                 elif efilter.user_exc is not None:
                     exc, tb = efilter.user_exc
                     with ResumedTracing():
